@@ -24,7 +24,7 @@ class C13y_seed_chain1(Contract):
     properties = ['C13']
     inline = True
     modifies = ['self.log']
-    options = {'seq_len': {'self.log': 0, 'test.ops': 1, 'test.args': 2}, 'bounded': 8}
+    options = {'seq_len': {'self.log': 0, 'test.ops': 1, 'test.args': 2}, 'bounded': 8, 'bounded_refute': True}
     note = 'bounded stand-in: comparison chain of 1 link (2 operands)'
 
     def post(self, test, result):
@@ -42,7 +42,7 @@ class C13y_seed_chain2(Contract):
     properties = ['C13']
     inline = True
     modifies = ['self.log']
-    options = {'seq_len': {'self.log': 0, 'test.ops': 2, 'test.args': 3}, 'bounded': 8}
+    options = {'seq_len': {'self.log': 0, 'test.ops': 2, 'test.args': 3}, 'bounded': 8, 'bounded_refute': True}
     note = 'bounded stand-in: comparison chain of 2 links (3 operands)'
 
     def post(self, test, result):
@@ -60,7 +60,7 @@ class C13y_seed_chain3(Contract):
     properties = ['C13']
     inline = True
     modifies = ['self.log']
-    options = {'seq_len': {'self.log': 0, 'test.ops': 3, 'test.args': 4}, 'bounded': 8}
+    options = {'seq_len': {'self.log': 0, 'test.ops': 3, 'test.args': 4}, 'bounded': 8, 'bounded_refute': True}
     note = 'bounded stand-in: comparison chain of 3 links (4 operands)'
 
     def post(self, test, result):
@@ -80,7 +80,7 @@ class C13y_seed_and(Contract):
     inline = True
     modifies = ['self.log']
     options = {'seq_len': {'self.log': 0, 'test.args.0.ops': 1, 'test.args.0.args': 2,
-                           'test.args.1.ops': 2, 'test.args.1.args': 3}, 'bounded': 8}
+                           'test.args.1.ops': 2, 'test.args.1.args': 3}, 'bounded': 8, 'bounded_refute': True}
     note = 'bounded stand-in: conjunction of a 1-link and a 2-link chain'
 
     def post(self, test, result):
